@@ -14,38 +14,59 @@ def worker(case, led):
     if su is None or len(su["bt"].node_list) < 2:
         return
     bt, order, model, H, Hd, sectors, rng = su["bt"], su["order"], su["model"], su["H"], su["Hd"], su["sectors"], su["rng"]
+    from renormalizer.model import Op
+    from renormalizer.tn import TTNO
     q = sectors[len(sectors) // 2]
     mask = S.sector_mask(model, q)
-    lam = np.linalg.eigvalsh(Hd[np.ix_(mask, mask)])
-    scale = max(1.0, np.abs(lam).max())
-    for M in (32, 2):
-        a = TU.random_ttns(bt, q, 4, rng)
-        if a is None:
-            return
-        key = (repr(su["shape"]), flavour, seed, M)
-        rep = dict(TU.describe_tree(bt), flavour=flavour, seed=seed, sector=q, M=M, exact_ground_energy=float(lam[0]))
-        st = np.random.get_state()
-        np.random.seed(seed + 5)
-        try:
-            e_list = optimize_ttns(a, H, procedure=[[M, 0.4], [M, 0.2], [M, 0.0], [M, 0.0]])
-        except Exception as e:
-            led.check(False, "post:optimize_ttns:total", "optimize_ttns", f"raised {type(e).__name__}: {e}", key, {"M": M}, rep)
-            continue
-        finally:
-            np.random.set_state(st)
-        E = np.asarray(e_list, dtype=float)
-        led.check(np.all(E >= lam[0] - 1e-9 * scale), "post:optimize_ttns:energies_are_upper_bounds", "optimize_ttns", f"reported {E.min():.10f} < exact {lam[0]:.10f}", key + ("var",), {"M": M}, rep)
-        v = T.dense_ttns(a, order)
-        leak = float(np.abs(v[~mask]).max()) if (~mask).any() else 0.0
-        # optimize_ttns updates its argument in place and returns energies only; after a truncating update the state is not renormalised,
-        # so normalisation is required at sufficient bond dimension and the Rayleigh quotient is used otherwise
-        led.check((abs(np.linalg.norm(v) - 1) <= 1e-8 or M != 32) and leak <= 1e-9 and not T.qnv_tree_violations(a), "post:optimize_ttns:state_normalised_in_sector", "optimize_ttns",
-                  f"norm {np.linalg.norm(v):.10f}, leak {leak:.1e}", key + ("state",), {"M": M}, rep)
-        es = np.vdot(v, Hd @ v).real / max(np.vdot(v, v).real, 1e-300)
-        led.check(es >= lam[0] - 1e-9 * scale, "post:optimize_ttns:state_energy_is_upper_bound", "optimize_ttns", f"{es} < {lam[0]}", key + ("evar",), {"M": M}, rep)
-        if M == 32:
-            led.check(abs(E[-1] - lam[0]) <= 1e-6 * scale and abs(es - lam[0]) <= 1e-6 * scale, "post:optimize_ttns:exact_at_sufficient_bond_dimension", "optimize_ttns",
-                      f"final {E[-1]:.10f}, state {es:.10f}, exact {lam[0]:.10f}", key + ("exact",), {"M": M}, rep)
+    lam0 = np.linalg.eigvalsh(Hd[np.ix_(mask, mask)])
+    width = max(1.0, np.abs(lam0).max())
+    dof0 = model.basis[0].dofs[0] if hasattr(model.basis[0], "dofs") and getattr(model.basis[0], "multi_dof", False) else model.basis[0].dof
+    # eigensolvers available offline x position of the spectrum: as given / entirely positive / entirely negative (a solver picking the
+    # eigenvalue of largest modulus, or the wrong end, is right for one sign of the spectrum only)
+    combos = [("davidson", 0.0), ("arpack", 2.0 * width), ("direct", -2.0 * width), ("arpack", 0.0)]
+    if tier != "quick":
+        combos += [("davidson", 2.0 * width), ("arpack", -2.0 * width), ("direct", 2.0 * width), ("direct", 0.0), ("davidson", -2.0 * width)]
+    for algo, shift in combos:
+        if shift:
+            Hs = TTNO(bt, list(su["terms"]) + [Op("I", dof0, float(shift))])
+            Hds = Hd + shift * np.eye(Hd.shape[0])
+            if np.abs(T.dense_ttno(Hs, order) - Hds).max() > 1e-9 * width:      # the shifted operator itself is C01's business
+                continue
+        else:
+            Hs, Hds = H, Hd
+        lam = lam0 + shift
+        scale = max(1.0, np.abs(lam).max())
+        for M in (32, 2):
+            a = TU.random_ttns(bt, q, 4, rng)
+            if a is None:
+                return
+            key = (repr(su["shape"]), flavour, seed, M, algo, round(float(shift), 6))
+            rep = dict(TU.describe_tree(bt), flavour=flavour, seed=seed, sector=q, M=M, exact_ground_energy=float(lam[0]), algo=algo, shift=float(shift))
+            fields = {"M": M, "algo": algo, "spectrum": "as given" if not shift else ("positive" if shift > 0 else "negative")}
+            a.optimize_config.algo = algo
+            st = np.random.get_state()
+            np.random.seed(seed + 5)
+            try:
+                e_list = optimize_ttns(a, Hs, procedure=[[M, 0.4], [M, 0.2], [M, 0.0], [M, 0.0]])
+            except Exception as e:
+                led.check(False, "post:optimize_ttns:total", "optimize_ttns", f"algo={algo}: raised {type(e).__name__}: {e}", key, dict(fields, raised=type(e).__name__), rep)
+                continue
+            finally:
+                np.random.set_state(st)
+            E = np.asarray(e_list, dtype=float)
+            led.check(np.all(E >= lam[0] - 1e-9 * scale), "post:optimize_ttns:energies_are_upper_bounds", "optimize_ttns", f"algo={algo}: reported {E.min():.10f} < exact {lam[0]:.10f}",
+                      key + ("var",), fields, rep)
+            v = T.dense_ttns(a, order)
+            leak = float(np.abs(v[~mask]).max()) if (~mask).any() else 0.0
+            # optimize_ttns updates its argument in place and returns energies only; after a truncating update the state is not renormalised,
+            # so normalisation is required at sufficient bond dimension and the Rayleigh quotient is used otherwise
+            led.check((abs(np.linalg.norm(v) - 1) <= 1e-8 or M != 32) and leak <= 1e-9 and not T.qnv_tree_violations(a), "post:optimize_ttns:state_normalised_in_sector", "optimize_ttns",
+                      f"algo={algo}: norm {np.linalg.norm(v):.10f}, leak {leak:.1e}", key + ("state",), fields, rep)
+            es = np.vdot(v, Hds @ v).real / max(np.vdot(v, v).real, 1e-300)
+            led.check(es >= lam[0] - 1e-9 * scale, "post:optimize_ttns:state_energy_is_upper_bound", "optimize_ttns", f"algo={algo}: {es} < {lam[0]}", key + ("evar",), fields, rep)
+            if M == 32:
+                led.check(abs(E[-1] - lam[0]) <= 1e-6 * scale and abs(es - lam[0]) <= 1e-6 * scale, "post:optimize_ttns:exact_at_sufficient_bond_dimension", "optimize_ttns",
+                          f"algo={algo}, spectrum shifted by {shift:+.3f}: final {E[-1]:.10f}, state {es:.10f}, exact {lam[0]:.10f}", key + ("exact",), fields, rep)
 
 
 def check(run):
